@@ -82,6 +82,8 @@ pub enum Ev {
     ConnBegin { conn: usize },
     ConnEnd { conn: usize },
     Watchdog,
+    /// a future busy-waited on the clock without yielding (virtual time had to be forced on)
+    ClockSpin,
 }
 
 #[derive(Clone, Debug, Serialize)]
@@ -160,6 +162,7 @@ pub struct World {
     pub op_bytes: usize,
     pub frozen: bool,
     pub watchdog_tripped: bool,
+    pub clock_spin: bool,
 }
 
 impl World {
@@ -176,6 +179,7 @@ impl World {
             op_bytes: 0,
             frozen: false,
             watchdog_tripped: false,
+            clock_spin: false,
         }))
     }
 
